@@ -14,22 +14,25 @@ ID = "C20"
 LEVEL = "exploration"
 RULE = ("scenario = history of 2..6 connections; each response carries 0..2 Set-Cookie lines (names/values over small "
         "alphabets) with one Domain per response (upper/lower case, with/without leading dot) or none; targets inside, "
-        "outside and look-alike to the domains; optional caller cookie.  The process-wide jar is emptied before each "
+        "outside and look-alike to the domains; a response may also set a cookie whose own line names no Domain; names whose "
+        "'name=value' text sorts unlike the name; quoted values containing '; ' and escaped CR LF; optional caller cookie.  The process-wide jar is emptied before each "
         "history.  Oracle = reference jar (domain -> name -> value, only cookies whose response named a Domain, latest "
         "value wins) -> expected Cookie header = name-sorted applicable cookies then the caller's cookie; compared with "
         "the Cookie header each peer parsed.  Enumerated completely: every (setting domain form, target host) pair over "
         "8 domain forms x 10 hosts, one cookie.  non-trivial = at least one stored cookie and a later connection; "
         "distinct = (per step: domain form class, number of cookies, target relation inside/outside/look-alike/"
         "sub-domain, caller cookie?)")
-ASSUMPTIONS = ["cookie names are letters only (no name is a prefix of another followed by a byte below '=')",
+ASSUMPTIONS = ["a quoted value is replayed in the quoted form in which it was set",
                "a name is never set under two different domains that both cover one target (the property does not say which wins)"]
 
 HOSTS = ["example.test", "www.example.test", "a.b.example.test", "notexample.test", "example.test.evil.test",
          "xexample.test", "other.test", "sub.other.test", "test", "EXAMPLE.test"]
 DOMAINS = ["example.test", ".example.test", "EXAMPLE.TEST", ".Example.Test", "www.example.test", "other.test", ".OTHER.test",
            "b.example.test"]
-NAMES = ["a", "b", "c", "sid", "tok"]
-VALUES = ["1", "2", "xyz", "v", "long" * 8]
+NAMES = ["a", "b", "c", "sid", "tok", "id", "id2", "id-b", "a.b", "a+"]  # incl. names whose "name=value" text sorts unlike the name
+VALUES = ["1", "2", "xyz", "v", "long" * 8,
+          # quoted values as they appear in the Set-Cookie line; what comes back must be one cookie, not more, and no header line
+          '"x; admin=1"', '"y\\015\\012X-Injected: yes"', '"two words"']
 
 
 def canon(domain):
@@ -84,6 +87,12 @@ def gen(rng):
                     owner[nm] = cd
                 if nm not in [x[0] for x in st["set"]]:
                     st["set"].append([nm, rng.choice(VALUES)])
+            if d is not None and rng.random() < 0.2:
+                # the same response also sets a cookie whose own line names no Domain (a host-only cookie)
+                nm = rng.choice([n for n in NAMES if n not in owner and n not in [x[0] for x in st["set"]]] or ["zz"])
+                if nm in NAMES:
+                    owner[nm] = canon(d)
+                    st["set"].append([nm, rng.choice(VALUES[:5]), "nodomain"])
             st["domain"] = d
         if rng.random() < 0.2:
             # this step's server answers with a redirect (its own Set-Cookie lines ride on the 3xx) to another host
@@ -109,10 +118,10 @@ def run(sc, choices=None):
             names = [x[0] for x in st.get("set", ())]
             if len(set(names)) != len(names) or any(n not in NAMES for n in names):
                 raise InvalidScenario("names")
-            if any(v not in VALUES for _, v in st.get("set", ())):
+            if any(x[1] not in VALUES or (len(x) > 2 and x[2] != "nodomain") for x in st.get("set", ())):
                 raise InvalidScenario("values")
             if st.get("domain") is not None:
-                for n in names:
+                for n in [x[0] for x in st.get("set", ())]:
                     cd = canon(st["domain"])
                     if owner.setdefault(n, cd) != cd:
                         raise InvalidScenario("name owned by two domains")
@@ -132,9 +141,10 @@ def run(sc, choices=None):
             peers.append(p)
             return p
         extra = []
-        for nm, val in st.get("set", ()):
+        for ent in st.get("set", ()):
+            nm, val = ent[0], ent[1]
             line = f"{nm}={val}"
-            if st.get("domain") is not None:
+            if st.get("domain") is not None and not (len(ent) > 2 and ent[2] == "nodomain"):
                 line += f"; Domain={st['domain']}"
             line += "; Path=/"
             extra.append(("Set-Cookie", line))
@@ -220,8 +230,14 @@ def run(sc, choices=None):
         if stores and st.get("redirect_to"):
             res.probes["set_cookie_on_redirect"] = 1
         if stores and st.get("domain") is not None and st.get("set"):
-            jar.setdefault(canon(st["domain"]), {}).update({k: v for k, v in st["set"]})
-            stored_any = True
+            # "when the response names a Domain for them" is read per response: the repository's own test
+            # (test_cookiejar: "a=b; c=d; domain=abc" keeps a and c) pins down that a cookie whose own line names no Domain is
+            # kept under the Domain its neighbour names
+            kept = {x[0]: x[1] for x in st["set"]} if any(len(x) < 3 for x in st["set"]) else {}  # no line names a Domain: nothing kept
+            if any(len(x) > 2 for x in st["set"]) and kept:
+                res.probes["domainless_cookie_beside_domain_cookie"] = 1
+            jar.setdefault(canon(st["domain"]), {}).update(kept)
+            stored_any = stored_any or bool(kept)
     res.sig = repr(sig)
     res.nontrivial = stored_any and len(steps) > 1
     for s in sig:
